@@ -15,8 +15,8 @@ ColExprs == {NoneE} \cup {<<"lit", k>> : k \in Pal} \cup {<<"var", v>> : v \in V
             \cup {<<"varfb", v, k>> : v \in Vars, k \in {1, 3}}
 VarDefs == {<<"undef">>} \cup {<<"lit", k>> : k \in {1, 2, 3}} \cup {<<"var", v>> : v \in Vars}
 Rules == [root : BOOLEAN, col : ColExprs, bg : {"none"} \cup Bgs]
-VARIABLES sheet0, vdef, rules, i, acc, tuned, failed, cards, failedSel, rootDirty
-vars == <<sheet0, vdef, rules, i, acc, tuned, failed, cards, failedSel, rootDirty>>
+VARIABLES phase, sheet0, vdef, rules, i, acc, tuned, failed, cards, failedSel, rootDirty
+vars == <<phase, sheet0, vdef, rules, i, acc, tuned, failed, cards, failedSel, rootDirty>>
 \* ---- variable resolution as the code does it (visited set, fallback) ----
 RECURSIVE Res(_, _, _)
 Res(e, vd, visited) ==
@@ -28,12 +28,18 @@ Res(e, vd, visited) ==
            ELSE LET r == IF vd[v][1] = "undef" THEN -1 ELSE Res(vd[v], vd, visited \cup {v})
                 IN IF r # -1 THEN r ELSE fb
    ELSE -1
-Init == /\ vdef \in [Vars -> VarDefs]
-        /\ \E n \in 1..NR : rules \in [1..n -> Rules]
-        /\ sheet0 = <<vdef, rules>>
+\* the stylesheet is built rule by rule (so that TLC can also SIMULATE behaviours: one random stylesheet per run),
+\* then frozen as sheet0 and processed
+Init == /\ phase = "build" /\ vdef \in [Vars -> VarDefs] /\ rules = <<>> /\ sheet0 = <<>>
         /\ i = 1 /\ acc = 0 /\ tuned = 0 /\ failed = 0 /\ cards = {} /\ failedSel = {} /\ rootDirty = {}
+AddRule == /\ phase = "build" /\ Len(rules) < NR
+           /\ \E r \in Rules : rules' = Append(rules, r)
+           /\ UNCHANGED <<phase, sheet0, vdef, i, acc, tuned, failed, cards, failedSel, rootDirty>>
+Start == /\ phase = "build" /\ Len(rules) >= 1
+         /\ phase' = "run" /\ sheet0' = <<vdef, rules>>
+         /\ UNCHANGED <<vdef, rules, i, acc, tuned, failed, cards, failedSel, rootDirty>>
 Process ==
-  /\ i <= Len(rules)
+  /\ phase = "run" /\ i <= Len(rules)
   /\ LET r == rules[i] IN
      IF r.col = NoneE THEN UNCHANGED <<vdef, rules, acc, tuned, failed, cards, failedSel, rootDirty>>
      ELSE LET t == Res(r.col, vdef, {})
@@ -56,14 +62,14 @@ Process ==
                             /\ rootDirty' = IF r.root THEN rootDirty \cup {i} ELSE rootDirty
                             /\ UNCHANGED vdef
                     /\ UNCHANGED <<acc, failed, failedSel>>
-  /\ i' = i + 1 /\ UNCHANGED sheet0
+  /\ i' = i + 1 /\ UNCHANGED <<sheet0, phase>>
 \* post-pass: :root/html rules are re-serialised from the declarations parsed before processing (F4)
-Post == /\ i = Len(rules) + 1
+Post == /\ phase = "run" /\ i = Len(rules) + 1
         /\ rules' = [k \in 1..Len(rules) |-> IF k \in rootDirty THEN sheet0[2][k] ELSE rules[k]]
-        /\ i' = i + 1 /\ UNCHANGED <<sheet0, vdef, acc, tuned, failed, cards, failedSel, rootDirty>>
-Next == Process \/ Post
+        /\ i' = i + 1 /\ UNCHANGED <<phase, sheet0, vdef, acc, tuned, failed, cards, failedSel, rootDirty>>
+Next == AddRule \/ Start \/ Process \/ Post
 Spec == Init /\ [][Next]_vars
-Done == i = Len(rules) + 2
+Done == phase = "run" /\ i = Len(rules) + 2
 Eff(k) == Res(rules[k].col, vdef, {})
 Colored == {k \in 1..Len(rules) : sheet0[2][k].col # NoneE}
 Partition == Done => acc + tuned + failed = Cardinality(Colored)
